@@ -22,6 +22,7 @@ import (
 	"sort"
 	"strings"
 	"testing"
+	"time"
 
 	"github.com/nspcc-dev/neofs-node/pkg/local_object_storage/blobstor/fstree"
 	"github.com/nspcc-dev/neofs-node/pkg/local_object_storage/shard"
@@ -265,7 +266,9 @@ func lenCuts(t *rapid.T, recs []record) []int {
 // ---------- shards ----------
 
 func openShard(dir string, wc bool) *shard.Shard {
-	s, err := stor.OpenShard(stor.ShardCfg{Dir: dir, WriteCache: wc})
+	// the combined-file writer of FSTree delays every small Put by its write interval (10 ms by default)
+	s, err := stor.OpenShard(stor.ShardCfg{Dir: dir, WriteCache: wc,
+		FSTOpts: []fstree.Option{fstree.WithCombinedWriteInterval(200 * time.Microsecond)}})
 	if err != nil {
 		fatalEnv("open shard: %v", err)
 	}
